@@ -403,6 +403,13 @@ impl DeltaBuilder {
                 let Some(current_node_delta) = self.current_node_delta.as_mut() else {
                     anyhow::bail!("received a key-value op without a node op before.");
                 };
+                // An honest peer only emits this op for a node without key-values. Letting it
+                // lower the max version below a preceding key-value's version would trip the
+                // `max_version` assertion in `NodeState::apply_delta`.
+                anyhow::ensure!(
+                    current_node_delta.max_version <= max_version,
+                    "max version should not decrease"
+                );
                 current_node_delta.max_version = max_version;
             }
         }
